@@ -151,4 +151,128 @@ theorem fromStringF_rendered_trailer (fas : List (Frame × Option Str)) (etype m
       fromLinesF_congr (dropTrailers_append_trailer _ ht)]
   exact fromLinesF_rendered fas etype msg h
 
+
+/-! ## exact extent of the line-separator finding -/
+
+/-- what from_string makes of the separators of a text: every str.splitlines separator becomes `\n`
+    (`\r\n` one `\n`); same state machine as `splitlinesGo` -/
+def normGo (skipLF : Bool) : Str → Str
+  | [] => []
+  | c :: rest =>
+    if skipLF && c = '\n' then normGo false rest
+    else if c = '\r' then '\n' :: normGo true rest
+    else if isSep c then '\n' :: normGo false rest
+    else c :: normGo false rest
+
+/-- the message from_string returns for a message with other line separators in it -/
+def normSeps (s : Str) : Str := normGo false s
+
+theorem nl_isSep' : isSep '\n' = true := by decide +kernel
+theorem cr_isSep : isSep '\r' = true := by decide +kernel
+
+theorem splitlinesGo_normGo : ∀ (s : Str) (b : Bool), splitlinesGo false (normGo b s) = splitlinesGo b s
+  | [], b => by simp [normGo, splitlinesGo]
+  | c :: rest, b => by
+    rw [normGo, splitlinesGo]
+    split
+    · exact splitlinesGo_normGo rest false
+    · rename_i h1
+      split
+      · rw [splitlinesGo]
+        simp [nl_isSep', splitlinesGo_normGo rest true]
+      · rename_i h2
+        split
+        · rw [splitlinesGo]
+          simp [nl_isSep', splitlinesGo_normGo rest false]
+        · rename_i h3
+          have hc : c ≠ '\n' := by intro h; subst h; exact h3 nl_isSep'
+          rw [splitlinesGo]
+          simp [hc, h2, h3, splitlinesGo_normGo rest false]
+
+theorem normGo_prefix {a : Str} (ha : a.all msgCharOK = true) (s : Str) :
+    normGo false (a ++ s) = a ++ normGo false s := by
+  induction a with
+  | nil => rfl
+  | cons c a' ih =>
+    simp only [List.all_cons, Bool.and_eq_true] at ha
+    have hcr : c ≠ '\r' := by
+      intro h; subst h
+      have := ha.1
+      simp [msgCharOK, notSep, cr_isSep] at this
+    simp only [List.cons_append, normGo, Bool.false_and, Bool.false_eq_true, if_false, hcr]
+    by_cases hs : isSep c = true
+    · have : c = '\n' := by
+        have := ha.1
+        simpa [msgCharOK, notSep, hs] using this
+      simp [hs, this, ih ha.2]
+    · simp [hs, ih ha.2]
+
+theorem normGo_ne_nil {s : Str} (h : s ≠ []) : normGo false s ≠ [] := by
+  cases s with
+  | nil => exact absurd rfl h
+  | cons c rest =>
+    simp only [normGo, Bool.false_and, Bool.false_eq_true, if_false]
+    split
+    · simp
+    · split <;> simp
+
+/-- the text before the message: every line of it is free of separators -/
+theorem toString_split (pe : PE) (hm : pe.msg ≠ []) :
+    toString pe = (unlines (header :: pe.frames.flatMap frameLines) ++ (pe.etype ++ colonSp)) ++ pe.msg := by
+  unfold toString toLines
+  have : header :: (pe.frames.flatMap frameLines ++ [excLine pe.etype pe.msg])
+      = (header :: pe.frames.flatMap frameLines) ++ [excLine pe.etype pe.msg] := by simp
+  rw [this, joinNL_unlines]
+  simp [excLine, hm, List.append_assoc]
+
+theorem unlines_msgCharOK {ls : List Str} (h : ∀ l ∈ ls, l.all notSep = true) : (unlines ls).all msgCharOK = true := by
+  induction ls with
+  | nil => rfl
+  | cons l ls ih =>
+    have hl := h l (List.mem_cons_self ..)
+    have := ih (fun x hx => h x (List.mem_cons_of_mem _ hx))
+    simp only [unlines, List.flatMap_cons, List.all_append, Bool.and_eq_true] at this ⊢
+    refine ⟨⟨?_, by decide⟩, this⟩
+    simp only [List.all_eq_true] at hl ⊢
+    intro c hc
+    simp [msgCharOK, hl c hc]
+
+/-- from_string on a text whose message holds other line separators: the separators come back as `\n`, everything
+    else is recovered -/
+theorem fromStringF_separators (pe : PE) (hm : pe.msg ≠ [])
+    (h : WFpe ⟨pe.frames, pe.etype, normSeps pe.msg⟩ = true) :
+    fromStringF (toString pe) = .ok (.tb, ⟨pe.frames, pe.etype, normSeps pe.msg⟩) := by
+  have hw := h
+  simp only [WFpe, Bool.and_eq_true, List.all_eq_true] at hw
+  obtain ⟨hfr, hexc⟩ := hw
+  obtain ⟨h1, h2, _, _, _, _⟩ := WFexc_parts hexc
+  -- the prefix of the text is made of separator-free lines
+  have hpre : (unlines (header :: pe.frames.flatMap frameLines) ++ (pe.etype ++ colonSp)).all msgCharOK = true := by
+    rw [List.all_append, List.all_append, Bool.and_eq_true, Bool.and_eq_true]
+    refine ⟨?_, ?_, by decide⟩
+    · apply unlines_msgCharOK
+      intro l hl
+      rcases List.mem_cons.mp hl with rfl | hl
+      · decide
+      · obtain ⟨f, hf, hlf⟩ := List.mem_flatMap.mp hl
+        exact frameLines_notSep (hfr f hf) l hlf
+    · simp only [List.all_eq_true] at h2 ⊢
+      intro c hc
+      simp [msgCharOK, notSep_of_notSpace (h2 c hc)]
+  have hm' : normSeps pe.msg ≠ [] := normGo_ne_nil hm
+  have htext : normGo false (toString pe) = toString ⟨pe.frames, pe.etype, normSeps pe.msg⟩ := by
+    rw [toString_split pe hm, normGo_prefix hpre, toString_split ⟨pe.frames, pe.etype, normSeps pe.msg⟩ hm']
+    rfl
+  have hfirst : firstNotSpace (toString pe) = true := by
+    rw [toString_eq_toStringA]; exact toStringA_first _ _ _
+  have hfirst' : firstNotSpace (toString ⟨pe.frames, pe.etype, normSeps pe.msg⟩) = true := by
+    rw [toString_eq_toStringA]; exact toStringA_first _ _ _
+  have key : fromStringF (toString pe) = fromStringF (toString ⟨pe.frames, pe.etype, normSeps pe.msg⟩) := by
+    unfold fromStringF
+    rw [lstrip_of_first hfirst, lstrip_of_first hfirst', ← htext]
+    unfold splitlines
+    rw [splitlinesGo_normGo]
+  rw [key, toString_eq_toStringA, fromStringF_rendered _ _ _ (WFtextA_noAnchors _ h)]
+  simp [noAnchors, Function.comp_def]
+
 end C16
